@@ -475,7 +475,13 @@ def gen_parser_schedule(rng, idx, tier):
     n = lags + leads + rng.randint(1, 5)
     sp = {'type': rng.choice(spans.TYPES), 'n': n, 'origin': rng.choice([0, 2, 5])}
     init = scripts.gen_data(rng, prog, n)
-    spec = {'kind': 'parser', 'script': prog['script'], 'endo': prog['endo'], 'names': prog['names'], 'lags': lags, 'leads': leads, 'span': sp, 'init': init}
+    build = probes.build_options(rng, prog, allow_shorter=True)
+    lags, leads = probes.expected_lags_leads(prog['lags'], prog['leads'], build)
+    if n < lags + leads + 1:
+        n = lags + leads + 1 + rng.randint(0, 2)
+        sp['n'] = n
+        init = scripts.gen_data(rng, prog, n)
+    spec = {'kind': 'parser', 'script': prog['script'], 'endo': prog['endo'], 'names': prog['names'], 'lags': lags, 'leads': leads, 'lags_script': prog['lags'], 'leads_script': prog['leads'], 'declared': prog['declared'], 'build': build, 'span': sp, 'init': init}
     if rng.random() < 0.15:
         spec['strict'] = True
     ops = []
@@ -534,7 +540,16 @@ def integer_plan(plan):
     return plan
 
 
-def build(fsic, spec):
+def shorter_than_script(spec):
+    b = spec.get('build') or {}
+    return ('lags' in b and b['lags'] < spec.get('lags_script', 0)) or ('leads' in b and b['leads'] < spec.get('leads_script', 0))
+
+
+class BuildFailed(Exception):
+    """The workload's script did not yield a usable class (already recorded as a discrepancy)."""
+
+
+def build(fsic, spec, ctx=None):
     span = spans.make_span(spec['span'])
     if spec['kind'] == 'scripted':
         cls = probes.make_scripted(fsic, spec)
@@ -547,8 +562,9 @@ def build(fsic, spec):
         if spec.get('dtype'):
             assert all(m.__dict__['_' + nm].dtype == {'float32': np.float32, 'int64': np.int64}[spec['dtype']] for nm in spec['endo'] + spec['exo']), 'harness: dtype= not honoured by the scripted class'
         return m, span, list(spec['endo']), list(spec['check']), list(spec['exo'])
-    symbols = fsic.parse_model(spec['script'])
-    base = fsic.build_model(symbols)
+    base = probes.build_parser_class(fsic, spec, ctx)
+    if base is None:
+        raise BuildFailed()
     cls = probes.make_probed(fsic, base)
     via = spec.get('init_via', 'dict')
     if via == 'dict':
@@ -686,6 +702,7 @@ def do_solve(m, span, spec, op, endo, check, exo, ctx, step):
         'feasible': True,
         'np_err': ctx.np_err,
         'dtype': spec.get('dtype'),
+        'shorter_than_script': shorter_than_script(spec),
     }
     if spec.get('dtype'):
         ctx.probe('model-dtype:' + spec['dtype'])
@@ -740,12 +757,10 @@ def execute(schedule, ctx):
     ctx.np_err = schedule.get('np_err', 'default')
     ctx.probe('ambient-numpy-error-state:' + ctx.np_err)
     try:
-        m, span, endo, check, exo = build(fsic, spec)
-    except Exception as e:
-        if spec['kind'] == 'parser':
-            ctx.log('build-failed', type(e).__name__)
-            return
-        raise
+        m, span, endo, check, exo = build(fsic, spec, ctx)
+    except BuildFailed:
+        ctx.log('build-failed')
+        return
     n = len(span)
     pool = {0: m}
     for step, op in enumerate(schedule['ops']):
